@@ -60,6 +60,8 @@ class REPEX_state:
     def __init__(self, config, minus=False):
         """Initiate REPEX given confic dict from *toml file."""
         self.config = config
+        # the path data belong to this state, not to the class
+        self.traj_data = {}
         # storage of additional trajectory files
         self.pstore.keep_traj_fnames = config.get("output", {}).get(
             "keep_traj_fnames", []
